@@ -6,7 +6,7 @@ Import ListNotations.
 Open Scope N_scope.
 
 (* After any sequence of get / set / delete / membership / length / iteration /
-   to_dict operations with arbitrarily-cased keys, the observations (including
+   to_dict / update (pairs, mapping, keywords) / setdefault / pop / clear operations with arbitrarily-cased keys, the observations (including
    KeyError) are those of a plain dictionary driven with the lower-cased keys.
    [lower] is any function (Python's str.lower in the code). *)
 Theorem C19_refines_dict : forall (lower : str -> str) (V : Type) (ops : list (op V)) (d : pydict V),
@@ -83,4 +83,12 @@ Example C19_history_nonvacuous :
   run_ops str (step822 lower_name str) []
     [OSet (lit "Package") (lit "x"); OGet (lit "PACKAGE"); ODel (lit "pAcKaGe"); OGet (lit "package"); OLen] =
   [ObsNone str; ObsVal str (lit "x"); ObsNone str; ObsKeyError str; ObsLen str 0].
+Proof. vm_compute. reflexivity. Qed.
+
+Example C19_history_bulk_operations :
+  run_ops str (step822 lower_name str) [(lit "package", lit "x")]
+    [OUpdate [(lit "Version", lit "1"); (lit "VERSION", lit "2")]; OSetDefault (lit "PACKAGE") (lit "y"); OSetDefault (lit "Priority") (lit "p");
+     OPop (lit "version"); OPop (lit "Version"); OPopDefault (lit "nope") (lit "d"); OIter; OClear; OLen] =
+  [ObsNone str; ObsVal str (lit "x"); ObsVal str (lit "p"); ObsVal str (lit "2"); ObsKeyError str; ObsVal str (lit "d");
+   ObsKeys str [lit "package"; lit "priority"]; ObsNone str; ObsLen str 0].
 Proof. vm_compute. reflexivity. Qed.
